@@ -1152,6 +1152,8 @@ def run_live(case, ctx):
                 live.append({"t": lt, "E": dict(Ea), "id": key.value, "clean": key.value == ra["id"], "own": False,
                              "how": "load"})
                 shared = True
+                if any(has_surrogate(x) for k_ in Ea for x in k_):
+                    classes.append("live:loaded-name-not-utf8")
                 classes.append(f"live:stored={form}" + ("(canonical-bytes)" if data == ref_bytes(joined(Ea), algo)
                                                         and form != "canonical" else ""))
             elif op == "store_load" and room and ra["own"] and ra["clean"]:
